@@ -4,7 +4,7 @@
    task ids, ~pool_t last in its thread, called by at most one thread and only after the other threads
    finished their calls). *)
 From Coq Require Import List Arith Bool ZArith.
-From LN Require Import C17_Defs C17_Proofs C17_Statements.
+From LN Require Import C17_Defs C17_Proofs C17_Statements C17_Termination.
 Import ListNotations.
 
 Theorem C17_at_most_once : forall n thr progs, wf_config n progs = true -> forall p, reachable n thr progs p ->
@@ -55,6 +55,14 @@ Theorem C17_dropped_never_ran : forall n thr progs, wf_config n progs = true -> 
   In t (dropped p) -> ~ In t (map fst (ran p)) /\ ~ In t (finished p).
 Proof. exact s_dropped_never_ran. Qed.
 Print Assumptions C17_dropped_never_ran.
+
+(* liveness, up to scheduler fairness: without spurious wake-ups every execution is finite (an explicit bound),
+   and by deadlock freedom a non-final state always has a successor, so every maximal such execution ends in a
+   final state: all calls returned and, if the pool was destroyed, all workers exited (C17_shutdown) *)
+Theorem C17_bounded_executions : forall es p q,
+  run p es = Some q -> no_spurious es = true -> length es + measure q <= measure p.
+Proof. exact bounded_executions. Qed.
+Print Assumptions C17_bounded_executions.
 
 Theorem C17_chunks_tile : forall elements chunksize : Z,
   (1 <= chunksize)%Z -> (0 <= elements)%Z ->
